@@ -620,7 +620,7 @@ verdict monitors: panic hook, reader work <= 64*(plain-walk work + n) + 1 MiB (t
             crate::ev::report_stuck_and_exit("C04", tier, sd, op, family, input, cpu, 60)
         });
     }
-    let total: u64 = ctx.tier.pick(16_000, 3_000_000);
+    let total: u64 = ctx.tier.pick(16_000, 1_200_000);
     let seed = ctx.seed;
 
     // every strict prefix of a few valid streams (deterministic part)
